@@ -2384,6 +2384,8 @@ class FST:
                 raise ValueError('this FST has already been consumed or deleted')
             if code.parent:
                 raise ValueError('expecting root node')
+            if code is self:  # don't allow root to be put to itself
+                raise ValueError('circular put detected')
 
         with self._modifying():
             code = code_as_all(code, options, self._parse_params)
